@@ -178,6 +178,39 @@ void wide_all(sink& out, std::uint64_t salt)
             out.put(ev("WCmp").num("i", cid).raw("l", raw(a)).raw("r", raw(b)).raw("c", buf).str("out", o).s);
         }
     }
+    // comparisons with a built-in integer on either side (values equal to, next to and far from the integer)
+    if constexpr (requires(W w, std::int64_t k) { k <= w; w <= k; }) {
+        int c1 = add_inst(out, ev("Inst").str("kind", "WCmp").str("op", "cmp_int_wide").raw("lt", desc<std::int64_t>()).raw("rt", T).raw("res_t", desc<bool>()));
+        int c2 = add_inst(out, ev("Inst").str("kind", "WCmp").str("op", "cmp_wide_int").raw("lt", T).raw("rt", desc<std::int64_t>()).raw("res_t", desc<bool>()));
+        std::vector<W> ws;
+        for (long long k : {0LL, 1LL, 7LL, 255LL, 65536LL, 4294967296LL, 9223372036854775807LL}) {
+            ws.push_back(W(static_cast<std::int64_t>(k)));
+            if constexpr (cnl::numbers::signedness_v<Rep>) {
+                ws.push_back(W(static_cast<std::int64_t>(-k)));
+            }
+        }
+        for (std::size_t k = 0; k < vs.size() && k < 12; ++k) {
+            ws.push_back(vs[k]);
+        }
+        for (auto const& w : ws) {
+            for (std::int64_t k : {std::int64_t{0}, std::int64_t{1}, std::int64_t{-1}, std::int64_t{7}, std::int64_t{255}, std::int64_t{65536}, std::int64_t{4294967296LL},
+                                   std::int64_t{-4294967296LL}, std::numeric_limits<std::int64_t>::max(), std::numeric_limits<std::int64_t>::min()}) {
+                if (k < 0 && !cnl::numbers::signedness_v<Rep>) {
+                    continue;      // mixed signedness follows the built-in conversion rules: outside this check
+                }
+                bool c[12] = {};
+                auto o = guarded([&] {
+                    c[0] = k < w; c[1] = k <= w; c[2] = k > w; c[3] = k >= w; c[4] = k == w; c[5] = k != w;
+                    c[6] = w < k; c[7] = w <= k; c[8] = w > k; c[9] = w >= k; c[10] = w == k; c[11] = w != k;
+                });
+                char buf[64];
+                std::snprintf(buf, sizeof(buf), "[%d,%d,%d,%d,%d,%d]", c[0], c[1], c[2], c[3], c[4], c[5]);
+                out.put(ev("WCmp").num("i", c1).raw("l", enc(k)).raw("r", raw(w)).raw("c", buf).str("out", o).s);
+                std::snprintf(buf, sizeof(buf), "[%d,%d,%d,%d,%d,%d]", c[6], c[7], c[8], c[9], c[10], c[11]);
+                out.put(ev("WCmp").num("i", c2).raw("l", raw(w)).raw("r", enc(k)).raw("c", buf).str("out", o).s);
+            }
+        }
+    }
     // unary: negate, complement, increments
     int uid[4];
     char const* un[4] = {"neg", "id", "inc", "dec"};
